@@ -160,7 +160,7 @@ def dev_string():
 
 
 def initiator():
-    return st.one_of(st.none(), st.none(),
+    return st.one_of(st.none(), st.none(), st.just(""),
                      st.text(alphabet="abcdefghijklmnopqrstuvwxyz0123456789.:-", min_size=1, max_size=20).map(lambda t: "iqn.2020-01." + t),
                      st.sampled_from(["eui.02004567A425678D", "naa.52004567BA64678D", "myhost", "x"]),
                      TXT.filter(lambda t: len(t) > 0))
@@ -235,6 +235,16 @@ def check_case(case):
         expect(urls[0][2] == dev, "mismatch:url_not_the_requested_string", got=urls[0][2], want=dev)
         if want_name:
             expect(ctxs[0][2] == want_name, "mismatch:initiator_name", got=ctxs[0][2], want=want_name)
+        elif entry == "init_device" and ini == "":
+            # an explicit name reaches the device class unchanged - also the empty one, for which ISCSIDevice has
+            # a meaning of its own: init_device(url, rw, "") opens what ISCSIDevice(url, "") opens
+            got_name = ctxs[0][2]
+            del standins.LOG[:]
+            with lib("ISCSIDevice(url, '')"):
+                ISCSIDevice(dev, "")
+            ref = [c for c in standins.LOG if c[0] == "iscsi.Context"]
+            expect(len(ref) == 1 and ref[0][2] == got_name, "mismatch:explicit_initiator_name_not_passed_on",
+                   got=got_name, want=ref[0][2] if ref else None)
         expect(not OPENS, "mismatch:file_opened_for_iscsi", opens=OPENS[:3])
     near = not (is_dev or is_iscsi) and (dev.lower().lstrip(" /.").startswith(("dev", "iscsi")) or dev == "")
     one_binding = _CFG["sgio"] != _CFG["iscsi"]
